@@ -38,6 +38,21 @@ def stop_shapes(rng, quick):
                 script['slow']['exec']['delay_ms'] = 20
             items.append({'wf': wf, 'oc': oc, 'script': script, 'input': {'x': 'x', 'n': 1, 'flag': True},
                           'schedule': gen.noise_schedule(rng, max_us=300), 'at': 'stop-while-%s slow=%d' % (where, slow_ms)})
+    # the stop condition and the run input of g come from the same producer, and g is held just before it waits for its run
+    # input: when it gets there both are ready, whichever the select picks the plugin must not start (repeated, because the
+    # choice between two ready cases is random)
+    for k in range(6 if quick else 24):
+        g = {'input': tmap({'id': lit('g'), 'deps': tmap({'x': ref('steps.slow.outputs.success.tok')})}), 'stop_if': ref('steps.slow.outputs.success.tok')}
+        wf = {'steps': {'slow': {'kind': 'plugin', 'pstep': 'nowork', 'fields': {'input': tmap({'id': lit('slow')})}},
+                        'g': {'kind': 'plugin', 'pstep': 'work', 'fields': g}},
+              'outputs': {'executed': tmap({'r': ref('steps.g.outputs.success.tok')}),
+                          'stopped': tmap({'c': ref('steps.g.closed.result.cancelled'), 's': ref('steps.slow.outputs.success.tok')}),
+                          'signalled': tmap({'r': ref('steps.g.outputs.cancelled_early.tok')})}}
+        oc = {'slow': okoc(), 'g': dict(okoc(), stop=True)}
+        script = {'slow': {'exec': {'out': 'success', 'delay_ms': 30}}, 'g': {'exec': {'out': 'success', 'delay_ms': 2}}}
+        items.append({'wf': wf, 'oc': oc, 'script': script, 'input': {'x': 'x', 'n': 1, 'flag': True},
+                      'schedule': {'stalls': [{'point': 'plugin.start.beforeRecv', 'step': 'g', 'nth': 1, 'ms': 90}]},
+                      'at': 'stop-and-input-ready-together #%d' % k})
     return items
 
 
